@@ -23,7 +23,7 @@ TDoc == Is({"DOC"}) /\ ids' = NewSubsetter /\ hist' = <<>> /\ doc' = Ev.d /\ pen
 TGet == /\ Is({"GET"}) /\ Get(Ev.e.g)
         /\ Note(GlyphDiag(doc, doc.fonts[Ev.e.f], Ev.e, ids), Ev.id, Len(hist) + 1)
         /\ pen' = [pen EXCEPT ![Ev.e.span] = @ + PenOf(doc.fonts[Ev.e.f], Ev.e)]
-TEnd == Is({"END"}) /\ Note(DocDiag(doc) \cup SpanAgreeDiag(doc, pen) \cup SpanPlacedDiag(doc), Ev.id, 0) /\ UNCHANGED <<vars, pen>>
+TEnd == Is({"END"}) /\ Note(DocDiag(doc) \cup SpanAgreeDiag(doc, pen) \cup SpanPlacedDiag(doc) \cup PathPlacedDiag(doc), Ev.id, 0) /\ UNCHANGED <<vars, pen>>
 TPath == Is({"PATH"}) /\ Note(PathDiag(Ev.p), Ev.id, 0) /\ UNCHANGED <<vars, pen>>
 
 TInit == l = 1 /\ ids = NewSubsetter /\ hist = <<>> /\ doc = NoDoc /\ pen = <<>>
